@@ -5,6 +5,7 @@ import MaestroVerif.Lemmas.ExpandPlace
 import MaestroVerif.Lemmas.ExpandAdj
 import MaestroVerif.Lemmas.ExpandInv
 import MaestroVerif.Lemmas.ExpandNodes
+import MaestroVerif.Lemmas.ExpandGate
 
 /-!
 # C08 — Parameter expansion creates exactly the right instances and edges
@@ -383,6 +384,18 @@ theorem C08_no_dangling_edge (spec : Spec) (ord : List Str → List Str) (r : XG
     (∀ k x, x ∈ getAssoc r.deps k → r.hasNode x = true) ∧
     (∀ k x, x ∈ getAssoc r.adj k → r.hasNode x = true) :=
   stage_noDangling spec ord r h
+
+/-- **every gating dependency is an adjacency edge, in the finished graph**: whenever `p` is in the
+dependency set of `c` - the set whose emptying lets `c` be launched (C01) - `c` is a child of `p`
+in the adjacency table - the table the failure sweep walks (C02): a step can never be left
+waiting for a parent whose failure would not reach it.  (The converse - every adjacency edge is
+also gating - is what the two seeded changes C01-b and C01-e break; in the model it needs the
+parents of a re-placed instance to be the same, i.e. labels without the name separator, and is
+decided by the study-level launch monitor.) -/
+theorem C08_gating_edges_are_adjacency_edges (spec : Spec) (ord : List Str → List Str) (r : XG)
+    (h : stage spec ord = .ok r) :
+    ∀ p c, p ≠ c → p ∈ getAssoc r.deps c → c ∈ getAssoc r.adj p :=
+  stage_depsInAdj spec ord r h
 
 /-- the lifting itself: a property of the graph that no placement destroys holds of every
 expansion (used above; stated here because it is how the per-placement theorems of this file
